@@ -249,6 +249,7 @@ Definition rc_kw_obj : list N := [111; 98; 106].
 Definition rc_kw_trailer : list N := [116; 114; 97; 105; 108; 101; 114].
 Definition rc_kw_startxref : list N := [115; 116; 97; 114; 116; 120; 114; 101; 102].
 Definition rc_kw_xref : list N := [120; 114; 101; 102].
+Definition rc_kw_stream : list N := [115; 116; 114; 101; 97; 109].
 
 Definition rc_is_int (t : rc_token) : bool := match t_ty t with TtInteger => true | _ => false end.
 Definition rc_is_word (t : rc_token) (w : list N) : bool :=
@@ -689,18 +690,93 @@ Definition rc_reconstruct (maxid : Z) (file : list N) (len : N) (deleted : list 
   mkRes fatal true true t root false.
 
 (* does some table entry not lead to its own header (resolve -> readObjectAtOffset) *)
+Definition rc_header_ok (file : list N) (len : N) (og : rc_og) (off : N) : bool :=
+  match rc_object_start (if len <=? off then [] else rc_drop off file) with
+  | Some og' => rc_og_eqb og og'
+  | None => false
+  end.
 Fixpoint rc_mismatch (file : list N) (len : N) (t : rc_table) : bool :=
   match t with
   | [] => false
-  | (og, off) :: r =>
-      (if off =? 0 then false
-       else match rc_object_start (if len <=? off then [] else rc_drop off file) with
-            | Some og' => negb (rc_og_eqb og og')
-            | None => true
-            end) || rc_mismatch file len r
+  | (og, off) :: r => (if off =? 0 then false else negb (rc_header_ok file len og off)) || rc_mismatch file len r
   end.
 Fixpoint rc_has_zero (t : rc_table) : bool :=
   match t with [] => false | (_, off) :: r => (off =? 0) || rc_has_zero r end.
+
+(* the dictionary an object at `off` holds (strict specification parser on the body) *)
+Definition rc_dict_at (file : list N) (len : N) (off : N) : option (list (list N * pobj)) :=
+  if len <=? off then None else
+  let s := rc_drop off file in
+  let t1 := rc_read_token 0 s in
+  let s1 := rc_drop (t_end t1) s in
+  let t2 := rc_read_token 0 s1 in
+  let s2 := rc_drop (t_end t2) s1 in
+  let t3 := rc_read_token 0 s2 in
+  match parse_obj 2000 (rc_drop (t_end t3) s2) with
+  | Some (PDict d, rest) =>
+      (* readObject: a dictionary followed by the keyword stream is a stream, not a dictionary *)
+      let t4 := rc_read_token 0 rest in
+      if rc_is_word t4 rc_kw_stream then None
+      (* readObjectAtOffset skips isspace() after the object and throws "EOF after endobj" when the input ends
+         there: the object is then not cached *)
+      else if forallb rc_is_space (rc_drop (t_end t4) rest) then None
+      else Some d
+  | _ => None
+  end.
+
+Definition rc_n_Pages : list N := [80; 97; 103; 101; 115].
+
+(* state while objects are resolved after parse(): the table, whether reconstruction has happened, whether
+   anything was warned about *)
+Record rc_rstate := mkRS { rs_table : rc_table; rs_recon : bool; rs_warned : bool; rs_fatal : bool; rs_root : option rc_og }.
+
+(* resolve(og) as far as a dictionary value is concerned. recon_of () = the reconstructed state *)
+Definition rc_resolve_dict (recover : bool) (file : list N) (len : N) (recon_of : rc_rstate)
+                           (st : rc_rstate) (og : rc_og) : rc_rstate * option (list (list N * pobj)) :=
+  match rc_lookup og (rs_table st) with
+  | None => (st, None)
+  | Some off =>
+      if off =? 0 then (mkRS (rs_table st) (rs_recon st) true (rs_fatal st) (rs_root st), None)
+      else if rc_header_ok file len og off then (st, rc_dict_at file len off)
+      else if recover && negb (rs_recon st) then
+        (* reconstruct_xref, then readObjectAtOffset(false, new_offset) *)
+        match rc_lookup og (rs_table recon_of) with
+        | Some off' => (recon_of, if off' =? 0 then None else rc_dict_at file len off')
+        | None => (recon_of, None)
+        end
+      else
+        (* warned; the object is read anyway and cached under the id found in the file; og itself stays null *)
+        (mkRS (rs_table st) (rs_recon st) true (rs_fatal st) (rs_root st), None)
+  end.
+
+(* what parse() and a full resolution of the table do once a table and a trailer are there *)
+Definition rc_after_parse (recover : bool) (file : list N) (len : N) (recon_of : rc_rstate) (st : rc_rstate)
+  : rc_rstate :=
+  match rs_root st with
+  | None => mkRS (rs_table st) (rs_recon st) (rs_warned st) true None
+  | Some root =>
+      let '(st1, rd) := rc_resolve_dict recover file len recon_of st root in
+      let root1 := if rs_recon st1 && negb (rs_recon st) then rs_root st1 else rs_root st in
+      match rd with
+      | None => mkRS (rs_table st1) (rs_recon st1) (rs_warned st1) true root1
+      | Some d =>
+          let '(st2, pages_ok) :=
+            match dict_get d rc_n_Pages with
+            | Some (PRef n g) =>
+                let '(s2, pd) := rc_resolve_dict recover file len recon_of st1 (Z.of_N n, Z.of_N g) in
+                (s2, match pd with Some _ => true | None => false end)
+            | Some (PDict _) => (st1, true)
+            | _ => (st1, false)
+            end in
+          if negb pages_ok then mkRS (rs_table st2) (rs_recon st2) (rs_warned st2) true root1
+          else
+            (* every remaining entry is resolved (getAllObjects / writeJSON) *)
+            if negb (rs_recon st2) && rc_mismatch file len (rs_table st2) then
+              if recover then mkRS (rs_table recon_of) true true (rs_fatal recon_of) root1
+              else mkRS (rs_table st2) false true false root1
+            else mkRS (rs_table st2) (rs_recon st2) (rs_warned st2 || rc_has_zero (rs_table st2)) false root1
+      end
+  end.
 
 Definition rc_view (recover : bool) (file : list N) : rc_result :=
   let len := rc_len file in
@@ -720,18 +796,18 @@ Definition rc_view (recover : bool) (file : list N) : rc_result :=
           (sz <? 1)%Z || negb (sz - 1 =? max_obj)%Z
       | _ => true
       end in
-    let root := rc_root_of d in
-    if rc_mismatch file len t then
-      if recover then
-        let r := rc_reconstruct maxid file len [] (Some d) in
-        mkRes (r_fatal r) true true (r_table r) (r_root r) (xr_unsupported xr)
-      else mkRes false true false t root (xr_unsupported xr)
-    else mkRes (match root with None => true | Some _ => false end)
-               (x_warn st || size_warn || rc_has_zero t) false t root (xr_unsupported xr)
+    (* a reconstruction triggered while resolving keeps the trailer already read *)
+    let r := rc_reconstruct maxid file len [] (Some d) in
+    let recon_of := mkRS (r_table r) true true (r_fatal r) (r_root r) in
+    let fin := rc_after_parse recover file len recon_of (mkRS t false (x_warn st || size_warn) false (rc_root_of d)) in
+    mkRes (rs_fatal fin) (rs_warned fin) (rs_recon fin) (rs_table fin) (rs_root fin) (xr_unsupported xr)
   else
     if recover then
       let r := rc_reconstruct maxid file len (x_deleted (xr_state xr)) (xr_trailer xr) in
-      mkRes (r_fatal r) true true (r_table r) (r_root r) (xr_unsupported xr)
+      if r_fatal r then mkRes true true true (r_table r) (r_root r) (xr_unsupported xr) else
+      let st := mkRS (r_table r) true true false (r_root r) in
+      let fin := rc_after_parse recover file len st st in
+      mkRes (rs_fatal fin) true true (rs_table fin) (rs_root fin) (xr_unsupported xr)
     else mkRes true false false [] None (xr_unsupported xr).
 
 (* QPDFJob: an exception ends the run with status 2, any warning makes it 3 *)
